@@ -71,8 +71,26 @@ def run_one(mod, cls, key, seed, tier):
             # fairlearn raised on an input the property quantifies over: that is a refutation
             ctx.violate("exception:%s@%s" % (type(e).__name__, inner), message=str(e)[:300], traceback=tb)
         else:
-            ctx.notes["harness_error"] = tb
+            where = _harness_frame(e.__traceback__)
+            if isinstance(e, (AttributeError, TypeError, IndexError, KeyError)) and where:
+                # the harness could not even READ what fairlearn returned (no .index, not subscriptable, key missing ...): on the
+                # unchanged tree every result parses (any failure here would show as a non-zero exit there as well), so a result
+                # that cannot be parsed is not in the documented form - reported as a refutation, with the traceback as witness.
+                # Every other harness failure (OS, memory, import, timeout, assertion of the harness itself) stays inconclusive.
+                ctx.violate("result_not_in_documented_form:%s@%s" % (type(e).__name__, where), message=str(e)[:300], traceback=tb)
+            else:
+                ctx.notes["harness_error"] = tb
     return ctx
+
+
+def _harness_frame(tb) -> str:
+    """'props/Cxx.py:func' of the innermost harness frame if the exception was raised while property code handled a result."""
+    base = os.path.dirname(os.path.abspath(__file__)) + os.sep
+    last = ""
+    for fr in traceback.extract_tb(tb):
+        if fr.filename.startswith(base + "props" + os.sep):
+            last = "%s:%s" % (fr.filename[len(base):], fr.name)
+    return last
 
 
 def main():
